@@ -1423,8 +1423,9 @@ fn excl_for(seed: u64, idx: usize, salt: u64) -> Excl {
         creat_missing_parent: !r.chance(1, 4),
         killed_process_keeps_running: false,
         ignore_keeps_pending: false,
-        dup_min_above_limit: unregistered("dup-min-above-limit"),
-        emfile_open_side_effects: unregistered("emfile-open-side-effects"),
+        // open findings (F38, F39): like F24 in one case out of four
+        dup_min_above_limit: unregistered("dup-min-above-limit") || !r.chance(1, 4),
+        emfile_open_side_effects: unregistered("emfile-open-side-effects") || !r.chance(1, 4),
     }
 }
 
@@ -3182,6 +3183,50 @@ fn script_case(seed: u64, idx: usize, thorough: bool) -> ScriptCase {
     if idx < c.len() { c[idx].clone() } else { gen_script_case(seed, idx, thorough) }
 }
 
+fn same_obs(a: &ScriptObs, b: &ScriptObs) -> bool {
+    a.stdout == b.stdout && a.status == b.status && a.tree == b.tree
+}
+
+/// The check must not depend on real-OS timing.  A real-side observation that
+/// differs from the simulated one is repeated three more times: only a
+/// difference that shows in every run is reported.  If some run agrees with the
+/// simulator the agreeing observation is used and the case is counted as
+/// `real-side-unstable` (a flaky observation in the evidence, not a violation).
+#[allow(clippy::too_many_arguments)]
+fn settle_real(
+    w: &mut CasesWriter,
+    what: &str,
+    idx: usize,
+    case: &ScriptCase,
+    v: &ScriptObs,
+    first: &ScriptObs,
+    dir: &str,
+    shell: Option<&str>,
+) -> ScriptObs {
+    if same_obs(v, first) {
+        return first.clone();
+    }
+    let mut runs = vec![first.clone()];
+    for _ in 0..3 {
+        runs.push(run_script_real_with(&case.script, &case.tree, dir, shell));
+    }
+    if let Some(agree) = runs.iter().find(|o| same_obs(v, o)) {
+        w.count("real-side-unstable");
+        w.count(&format!("real-side-unstable:{what}#{idx}"));
+        eprintln!(
+            "c19: flaky real-side observation ({what} #{idx}): {} of 4 runs differ from the simulator; script: {:?}",
+            runs.iter().filter(|o| !same_obs(v, o)).count(),
+            case.script
+        );
+        return agree.clone();
+    }
+    if !runs.iter().all(|o| same_obs(&runs[0], o)) {
+        // differs from the simulator every time, but not always in the same way
+        w.count("real-side-varies-and-always-differs");
+    }
+    first.clone()
+}
+
 fn emit_script(w: &mut CasesWriter, case: &ScriptCase, v: &ScriptObs, r: &ScriptObs) {
     let term = format!("(CScript {} {})", v.coq(), r.coq());
     let json = format!(
@@ -3684,7 +3729,29 @@ fn emit_sys(w: &mut CasesWriter, case: &SysCase, v: &SysObs, r: &SysObs) {
     w.push(&term, &json, &tags, key);
 }
 
+/// The real side must not depend on how the check was started: a signal that
+/// is ignored on entry (`nohup`: SIGHUP; a background job of a non-interactive
+/// shell: SIGINT, SIGQUIT) cannot be trapped by a POSIX shell, and an inherited
+/// signal mask changes what is delivered.  Every signal gets its default
+/// action and nothing is blocked, in this process and so in all its children.
+fn standard_signal_state() {
+    use yash_env::system::{Disposition, Sigaction as _, Sigmask as _, SigmaskOp};
+    let sys = unsafe { RealSystem::new() };
+    for raw in 1..=64 {
+        // SIGKILL/SIGSTOP cannot be changed; SIGPIPE stays as the Rust runtime set it
+        // (std resets it to the default in every child it spawns)
+        if raw == 9 || raw == 19 || raw == 13 {
+            continue;
+        }
+        let n = yash_env::signal::Number::from_raw_unchecked(std::num::NonZero::new(raw).unwrap());
+        let _ = sys.sigaction(n, Disposition::Default);
+    }
+    let empty = <RealSystem as yash_env::system::Sigmask>::Sigset::default();
+    let _ = now(sys.sigmask(Some((SigmaskOp::Set, &empty)), None));
+}
+
 fn main() {
+    standard_signal_state();
     let raw: Vec<String> = std::env::args().collect();
     if raw.len() > 1 && raw[1] == "--real-sys-worker" {
         real_sys_worker(&raw[2..]);
@@ -3702,6 +3769,25 @@ fn main() {
                 String::from_utf8_lossy(&o.stdout), o.stderr, tree_show(&o.tree));
         }
         println!("== {}", if v.stdout == r.stdout && v.status == r.status && v.tree == r.tree { "AGREE" } else { "DIFFER" });
+        std::process::exit(0);
+    }
+    if raw.len() > 3 && raw[1] == "--stress-script" {
+        // c19 --stress-script N SCRIPT [yash3-path]: N runs on the real side (16 at a time),
+        // the distinct observations with their counts
+        let n: usize = raw[2].parse().unwrap();
+        let run = format!("{}/manual/{}", scratch_base(), std::process::id());
+        let case = ScriptCase { tree: tree_for(&raw[3]), script: raw[3].clone(), tags: vec![], kinds: vec![] };
+        let cases: Vec<ScriptCase> = (0..n).map(|_| case.clone()).collect();
+        let obs = real_scripts_all(&cases, &run, raw.get(4).cloned());
+        let mut count: BTreeMap<String, usize> = BTreeMap::new();
+        for o in obs {
+            *count.entry(format!("status {} stdout {:?} files {}", o.status, String::from_utf8_lossy(&o.stdout), tree_show(&o.tree))).or_insert(0) += 1;
+        }
+        for (k, v) in count {
+            println!("{v} x {k}");
+        }
+        let _ = std::fs::remove_dir_all(&run);
+        let _ = std::fs::remove_dir(format!("{}/manual", scratch_base()));
         std::process::exit(0);
     }
     let args = Args::parse();
@@ -3732,7 +3818,8 @@ fn main() {
     let reals = real_scripts_all(&cases, &run, None);
     for (i, case) in cases.iter().enumerate() {
         let v = run_script_virtual(&case.script, &case.tree, &format!("{run}/s{i}/root"));
-        emit_script(&mut w, case, &v, &reals[i]);
+        let r = settle_real(&mut w, "script", i, case, &v, &reals[i], &format!("{run}/s{i}"), None);
+        emit_script(&mut w, case, &v, &r);
     }
 
     // ---- stream 3 ----
@@ -3744,7 +3831,9 @@ fn main() {
     for (i, case) in cases3.iter().enumerate() {
         // (the same directory name as on the harness-shell side: $PWD is printed as ROOT anyway)
         let v = run_script_virtual(&case.script, &case.tree, &format!("{run}/h/s{i}/root"));
-        emit_script3(&mut w, case, &v, &reals3[i], &yash3s[i]);
+        let r = settle_real(&mut w, "script3-harness-shell", i, case, &v, &reals3[i], &format!("{run}/h/s{i}"), None);
+        let y = settle_real(&mut w, "script3-yash3", i, case, &v, &yash3s[i], &format!("{run}/y/s{i}"), Some(&yash3));
+        emit_script3(&mut w, case, &v, &r, &y);
     }
     let _ = std::fs::remove_dir_all(&run);
     // (the per-seed directory too, if no other run is using it)
